@@ -27,7 +27,7 @@ BL_EPS = {"blacklist", "refundUsers", "unblacklist"}
 PROPS = {
     "C01": dict(
         title="Ticket-payment solvency",
-        lean=["LP.Props.C01", "LP.Props.C01reach", "LP.Props.C01reachV2", "LP.Props.C01reachV1", "LP.Props.C01reachG1", "LP.Props.C14reach", "LP.Props.C14reachG"],
+        lean=["LP.Props.C01", "LP.Props.C01reach", "LP.Props.C01reachV2", "LP.Props.C01reachV1", "LP.Props.C01reachG1", "LP.Props.C14reach", "LP.Props.C14reachG", "LP.Props.AllVariants"],
         profiles=[("life", ALL_VARIANTS), ("chunks", ALL_VARIANTS)],
         R={"xf.pay": {"claim", "claimPayment", "blacklist", "refundUsers"},
            "st": ({"claim", "claimPayment"}, FUNDS_MSGS)},
